@@ -1,6 +1,7 @@
 package client
 
 import (
+	"bytes"
 	"context"
 	"crypto/subtle"
 	"log/slog"
@@ -100,7 +101,15 @@ func compareIPs(x, y []byte) int {
 	addrX, okX := netip.AddrFromSlice(x)
 	addrY, okY := netip.AddrFromSlice(y)
 	if !okX || !okY {
-		panic("unexpected IP address byte slice")
+		// x comes from the network: a host address of 8 or 12 bytes is
+		// no IP address and equals none
+		if okX != okY {
+			if okY {
+				return -1
+			}
+			return 1
+		}
+		return bytes.Compare(x, y) | 1
 	}
 	return addrX.Unmap().Compare(addrY.Unmap())
 }
